@@ -619,10 +619,18 @@ pub fn c06(ctx: &Ctx, begin: &mut dyn FnMut(J)) -> Outcome {
                 // min/max as a depth-1 segment that covers no base.
                 let has_zl = case.input.iter().any(|(_, vs)| vs.iter().any(|v| v.start == v.end));
                 let mut m = m;
-                if has_zl {
-                    m.min = s.min_val;
-                    m.max = s.max_val;
-                    out.tag("zero_length_entries_minmax_dont_care");
+                if has_zl && m.bases > 0 {
+                    // bounded don't-care: a zero-length entry may contribute a depth >= 1 that covers
+                    // no base, so min may drop (never below 1) and max may rise (by at most the number
+                    // of zero-length entries); anything else is still a violation
+                    let nzl = case.input.iter().flat_map(|(_, vs)| vs.iter()).filter(|v| v.start == v.end).count() as f64;
+                    if s.min_val >= 1.0 && s.min_val <= m.min {
+                        m.min = s.min_val;
+                    }
+                    if s.max_val >= m.max && s.max_val <= m.max + nzl {
+                        m.max = s.max_val;
+                    }
+                    out.tag("zero_length_entries_minmax_bounded_dont_care");
                 }
                 check(&mut out, "bigbed", &s, &m, items, true);
                 if ic != items {
